@@ -1038,3 +1038,131 @@ Proof.
   right. split; [exact Ho|]. destruct Hor2 as [->|(Hbad & _)]; [exists st, h; auto|].
   cbn in Hbad. congruence.
 Qed.
+
+(** ** Part 6: the statements of Props/C03.v and Props/C04.v *)
+
+Lemma rejected_changes_nothing s o : step_ok s o = false -> step s o = s.
+Proof. unfold step, step_ok. destruct (exec s o); [discriminate|reflexivity]. Qed.
+
+Lemma claim_iff_preimage_lemma s who id secret : Inv s ->
+  (step_ok s (Claim who id secret) = true <->
+   addr_ok who = true /\ exists c, get id (st_contracts s) = Some c /\ c_state c = Open /\ secret_ok c secret = true).
+Proof.
+  intros I. unfold step_ok. simpl. pose proof (claim_spec s who id secret I) as Hs.
+  destruct (claim s who id secret) as [s'|].
+  - destruct Hs as (Hw & c & Hg & Ho & Hsec & _). split; [intros _|reflexivity]. split; [exact Hw|]. exists c. auto.
+  - split; [discriminate|]. intros (Hw & c & Hg & Ho & Hsec).
+    destruct Hs as [Hn|[Hn|(c' & Hg' & Hor)]]; [congruence|congruence|].
+    rewrite Hg in Hg'. inversion Hg'; subst c'. destruct Hor; congruence.
+Qed.
+
+(** the effect of an accepted claim *)
+Lemma claim_effect_lemma s who id secret : Inv s -> Strict s -> step_ok s (Claim who id secret) = true ->
+  exists c, get id (st_contracts s) = Some c /\ c_state c = Open /\ secret_ok c secret = true
+    /\ st_height s < c_exp c
+    /\ get id (st_contracts (step s (Claim who id secret))) = Some (close c Completed (st_height s))
+    /\ st_log (step s (Claim who id secret)) = close_events id c Completed ++ st_log s
+    /\ ~ In (c_exp c, id) (st_queue (step s (Claim who id secret))).
+Proof.
+  intros I S. unfold step_ok, step. simpl. pose proof (claim_spec s who id secret I) as Hs.
+  destruct (claim s who id secret) as [s'|]; [|discriminate]. intros _.
+  destruct Hs as (_ & c & Hg & Ho & Hsec & R). exists c.
+  split; [exact Hg|]. split; [exact Ho|]. split; [exact Hsec|]. split; [exact (S _ _ Hg Ho)|].
+  split; [rewrite (cr_contracts _ _ _ _ _ R); apply get_set_same|]. split; [exact (cr_log _ _ _ _ _ R)|].
+  rewrite (cr_queue _ _ _ _ _ R). intros Hin. apply filter_In in Hin. destruct Hin as [_ Hn].
+  rewrite eqb_refl in Hn. discriminate.
+Qed.
+
+Lemma duplicate_rejected_lemma s m : has (id_of m) (st_contracts s) = true -> step_ok s (Create m) = false.
+Proof.
+  intros H. unfold step_ok. simpl. unfold create.
+  destruct (negb (create_basic m)); [reflexivity|]. destruct (blocked (m_to m)); [reflexivity|].
+  cbv zeta. rewrite H. reflexivity.
+Qed.
+
+(** the block whose height equals the expiration height refunds exactly the contracts still open *)
+Lemma refund_at_expiry_lemma s dt : Inv s -> Strict s ->
+  forall id c, get id (st_contracts s) = Some c ->
+    get id (st_contracts (begin_block s dt)) =
+      Some (if openb c && (c_exp c =? st_height s + 1) then close c Refunded (st_height s + 1) else c).
+Proof.
+  intros I S id c Hg. destruct (begin_block_spec s dt I S) as (_ & _ & _ & _ & Hc).
+  rewrite Hc, Hg. reflexivity.
+Qed.
+
+(** *** the ghost log, per contract *)
+Definition escrow_out_ev (e : event) : bool := match e with EvOut _ _ _ | EvBurn _ _ => true | _ => false end.
+Definition n_escrow_out (id : cid) (log : list event) : nat := length (filter escrow_out_ev (filter (ev_for id) log)).
+Definition n_mint (id : cid) (log : list event) : nat :=
+  length (filter (fun e => match e with EvMint _ _ => true | _ => false end) (filter (ev_for id) log)).
+
+Lemma leaves_escrow_once_lemma s id c : Inv s -> get id (st_contracts s) = Some c -> locksb c = true ->
+  n_escrow_out id (st_log s) = if openb c then 0%nat else 1%nat.
+Proof.
+  intros I Hg Hl. unfold n_escrow_out. rewrite (inv_log _ I), Hg. unfold expected_log, open_events, close_events.
+  rewrite Hl. unfold locksb, is_out, is_in, openb in *.
+  destruct (c_state c), (c_transfer c), (c_dir c); simpl in *; try discriminate; reflexivity.
+Qed.
+
+Lemma ordinary_log_lemma s id c : Inv s -> get id (st_contracts s) = Some c -> c_transfer c = false ->
+  filter (ev_for id) (st_log s) =
+    match c_state c with
+    | Open => [EvLock id (c_sender c) (c_amount c)]
+    | Completed => [EvOut id (c_to c) (c_amount c); EvLock id (c_sender c) (c_amount c)]
+    | Refunded => [EvOut id (c_sender c) (c_amount c); EvLock id (c_sender c) (c_amount c)]
+    end.
+Proof.
+  intros I Hg Ht. rewrite (inv_log _ I), Hg. unfold expected_log, open_events, close_events, locksb, is_in, is_out.
+  rewrite Ht. destruct (c_state c); reflexivity.
+Qed.
+
+Lemma outgoing_log_lemma s id c : Inv s -> get id (st_contracts s) = Some c -> is_out c = true ->
+  filter (ev_for id) (st_log s) =
+    match c_state c with
+    | Open => [EvLock id (c_sender c) (c_amount c)]
+    | Completed => [EvBurn id (c_amount c); EvLock id (c_sender c) (c_amount c)]
+    | Refunded => [EvOut id (c_sender c) (c_amount c); EvLock id (c_sender c) (c_amount c)]
+    end.
+Proof.
+  intros I Hg Ht. rewrite (inv_log _ I), Hg. unfold expected_log, open_events, close_events, locksb, is_in.
+  rewrite Ht. unfold is_out in Ht. apply andb_true_iff in Ht. destruct Ht as [Ht Hd]. rewrite Ht.
+  destruct (c_dir c); try discriminate. rewrite orb_true_r. destruct (c_state c); reflexivity.
+Qed.
+
+Lemma incoming_log_lemma s id c : Inv s -> get id (st_contracts s) = Some c -> is_in c = true ->
+  filter (ev_for id) (st_log s) =
+    match c_state c with
+    | Completed => [EvOut id (c_to c) (c_amount c); EvMint id (c_amount c)]
+    | _ => []
+    end.
+Proof.
+  intros I Hg Ht. rewrite (inv_log _ I), Hg. unfold expected_log, open_events, close_events, locksb, is_out.
+  rewrite Ht. unfold is_in in Ht. apply andb_true_iff in Ht. destruct Ht as [Ht Hd]. rewrite Ht.
+  destruct (c_dir c); try discriminate. simpl. destruct (c_state c); reflexivity.
+Qed.
+
+Lemma no_contract_no_events_lemma s id : Inv s -> get id (st_contracts s) = None -> filter (ev_for id) (st_log s) = [].
+Proof. intros I Hg. rewrite (inv_log _ I), Hg. reflexivity. Qed.
+
+(** *** C04 *)
+Definition Inv_C04 (s : state) : Prop :=
+  (forall d, bal (st_bank s) ESC d = wsum (w_esc d) (st_contracts s))
+  /\ forall d p, get_param (st_params s) d = Some p ->
+       exists a, get d (st_assets s) = Some a
+         /\ as_in a = wsum (w_in d) (st_contracts s)
+         /\ as_out a = wsum (w_out d) (st_contracts s)
+         /\ as_cur a = wsum (w_cur d) (st_contracts s)
+         /\ sup_of (st_supply s) d = as_cur a
+         /\ as_cur a + as_in a <= ap_limit p
+         /\ 0 <= as_out a <= as_cur a
+         /\ (ap_tl p = true -> as_tlc a = sup_of (st_win s) d /\ 0 <= sup_of (st_win s) d <= ap_tbl p).
+
+Lemma Inv_C04_of_Inv s : Inv s -> Inv_C04 s.
+Proof.
+  intros I. split; [exact (inv_esc _ I)|]. intros d p Hp.
+  destruct (inv_asset _ I d p Hp) as (a & Ha & Hin & Hout & Hcur & Hsup & (L1 & L2 & L3 & L4) & Hwin).
+  exists a. split; [exact Ha|]. split; [exact Hin|]. split; [exact Hout|]. split; [exact Hcur|]. split; [exact Hsup|].
+  assert (0 <= as_in a) by (rewrite Hin; apply wsum_nonneg; intros k v Hi; apply (w_nonneg _ I d k v Hi)).
+  assert (0 <= as_out a) by (rewrite Hout; apply wsum_nonneg; intros k v Hi; apply (w_nonneg _ I d k v Hi)).
+  split; [exact L1|]. split; [lia|]. intros Htl. pose proof (L4 Htl). rewrite <- (Hwin Htl). split; [reflexivity|lia].
+Qed.
